@@ -4,6 +4,7 @@ import glob
 import itertools
 import json
 import os
+import re
 
 from lib import impl
 from lib.core import cN, cbool, cbytes, clist, copt, cpair, ctor, vL, vN, vset
@@ -344,13 +345,20 @@ def run_case(ctx, case, fo, dirs, F):
             trees_term.append(cpair(cbytes(doid[dn]), copt([cbytes(h) for _, h in cdirs[dn]], clist)))
         elif trees[dn] in ("corrupt", "notalist"):
             trees_term.append(cpair(cbytes(doid[dn]), "None"))
-    hexnames = set(bulk.values()) if case.get("bulk", {}).get("shape", "md5") == "md5" else set()
+    # the store list and the expected set are the bulk of every literal: write 32-hex names there as
+    # (oid_hex32 0x...) [++ dot_dir] - the same list N, ~2.5x cheaper to parse (GcProofs.oid_hex32_example);
+    # used ids and listings stay plain lists, so a wrong helper would show as disagreements
+    hex32 = re.compile(r"[0-9a-f]{32}")
 
-    def coid(o):  # a bulk 32-hex name as (oid_hex32 0x...): the same list N, a cheaper literal
-        return f"(oid_hex32 0x{o})" if o in hexnames else cbytes(o)
+    def coid(o):
+        if hex32.fullmatch(o):
+            return f"(oid_hex32 0x{o})"
+        if o.endswith(".dir") and hex32.fullmatch(o[:-4]):
+            return f"(oid_hex32 0x{o[:-4]} ++ dot_dir)"
+        return cbytes(o)
 
-    def cset(oids):  # vset with the cheaper literals (sorted by code point, deduplicated)
-        return vset(oids) if not hexnames else "VL [" + "; ".join(f"VB {coid(o)}" for o in sorted(set(oids))) + "]"
+    def cset(oids):  # vset (sorted by code point, deduplicated) with the cheaper literals
+        return "VL [" + "; ".join(f"VB {coid(o)}" for o in sorted(set(oids))) + "]"
 
     cache_alg_term = copt(cbytes(cache_alg) if explicit_cache and not case.get("cache_is_odb") else
                           (cbytes(alg) if case.get("cache_is_odb") else None))
